@@ -90,8 +90,7 @@ def parse_audit(log):
     for m in re.finditer(r"AXIOMS (\S+) : \[(.*?)\]", log):
         axs = [a.strip() for a in m.group(2).split(",") if a.strip()]
         thms.append((m.group(1), axs))
-    m = re.search(r"AUDIT \S+ theorems=(\d+)", log)
-    count = int(m.group(1)) if m else 0
+    count = sum(int(m.group(1)) for m in re.finditer(r"AUDIT \S+ theorems=(\d+)", log))
     return thms, count
 
 
